@@ -44,6 +44,7 @@ type ScenarioSpec struct {
 	SyncData bool
 	Reads    bool // clients also read the keys (C02)
 	SameKeys bool // clients collide on the same keys (C02)
+	RealDisk bool // databases on real directories: snapshots carry content (see oxc.RealDiskNext)
 }
 
 // Monitor is evaluated at every scheduling point and at the end.
@@ -74,7 +75,9 @@ func Body(spec ScenarioSpec, mk func() []Oracle) func(s *vsched.Sched) {
 	return func(s *vsched.Sched) {
 		s.Explore(false)
 		names := []string{"n1", "n2", "n3"}
+		RealDiskNext = spec.RealDisk
 		c := NewCluster(s, names, spec.SyncData)
+		RealDiskNext = false
 		if strings.Contains(spec.Fault, "swap") {
 			c.AddNode("n4")
 		}
@@ -114,7 +117,7 @@ func Body(spec ScenarioSpec, mk func() []Oracle) func(s *vsched.Sched) {
 			s.Settle()
 		}
 		// a scripted fault that spans RPC timeouts takes longer than that
-		for i := 0; i < 150 && spec.Fault == "failed-become-leader" && !faultDone; i++ {
+		for i := 0; i < 150 && (spec.Fault == "failed-become-leader" || spec.Fault == "swap-snapshot-lead") && !faultDone; i++ {
 			s.Sleep(2 * time.Second)
 			s.Settle()
 		}
@@ -436,6 +439,73 @@ func failedBecomeLeader(c *Cluster, s *vsched.Sched, obs *Obs) {
 	doRead(c, s, obs, 1, "k2")
 }
 
+// swapSnapshotLead: data is written, then a follower is swapped for an empty node (which the
+// leader restores from a snapshot of its database and then feeds from the log), more data is
+// written, and leadership is pushed around until the new node leads and serves reads.
+func swapSnapshotLead(c *Cluster, s *vsched.Sched, obs *Obs) {
+	if c.SC == nil {
+		return
+	}
+	w := func(key, val string) {
+		l, _ := c.LeaderByStatus()
+		if l == "" {
+			return
+		}
+		op := &ClientOp{Client: 1, Kind: "put", Key: key, Value: val, Invoke: s.Steps(), Node: l}
+		obs.Ops = append(obs.Ops, op)
+		if resp, err := c.Write(l, put(key, val)); err == nil && resp.Puts[0].Status == proto.Status_OK {
+			op.OK, op.Version, op.Status = true, resp.Puts[0].Version.VersionId, "OK"
+		} else {
+			op.Unknown = true
+		}
+		op.Return = s.Steps()
+	}
+	w("k0", "before-swap-0")
+	w("k1", "before-swap-1")
+	md, _ := c.StoredMetadata()
+	from := ""
+	for _, e := range md.Ensemble {
+		if md.Leader == nil || e.Internal != md.Leader.Internal {
+			from = e.Internal
+		}
+	}
+	if from == "" {
+		return
+	}
+	_ = c.SC.SwapNode(c.Nodes[from].Addr, c.Nodes["n4"].Addr)
+	s.Sleep(5 * time.Second)
+	// the remaining old follower misses the next writes, so that the new node holds the best log
+	// among the nodes the coordinator can fence once the leader is gone
+	cur, _ := c.LeaderByStatus()
+	other := ""
+	for _, n := range []string{"n1", "n2", "n3"} {
+		if n != cur && n != from {
+			other = n
+		}
+	}
+	if cur == "" || other == "" {
+		return
+	}
+	c.Isolate(other)
+	w("k1", "after-swap-1")
+	w("k2", "after-swap-2")
+	c.Heal(other)
+	c.Isolate(cur)
+	c.SC.NodeBecameUnavailable(c.Nodes[cur].Addr)
+	for i := 0; i < 60; i++ {
+		s.Sleep(time.Second)
+		if x, _ := c.LeaderByStatusExcept(cur); x != "" {
+			break
+		}
+	}
+	c.Heal(cur)
+	s.Sleep(5 * time.Second)
+	dbg("swap-snapshot-lead: final leader %v", func() string { x, _ := c.LeaderByStatus(); return x }())
+	doRead(c, s, obs, 1, "k0")
+	doRead(c, s, obs, 1, "k1")
+	doRead(c, s, obs, 1, "k2")
+}
+
 func dbg(f string, a ...any) {
 	if debugEvents {
 		fmt.Fprintf(os.Stderr, "DBG "+f+"\n", a...)
@@ -522,6 +592,8 @@ func faultThread(c *Cluster, s *vsched.Sched, spec ScenarioSpec) {
 			}
 			_ = c.SC.SwapNode(c.Nodes[from].Addr, c.Nodes["n4"].Addr)
 		}
+	case "swap-snapshot-lead":
+		swapSnapshotLead(c, s, specObs)
 	case "failed-become-leader":
 		failedBecomeLeader(c, s, specObs)
 	case "client-cancel":
